@@ -79,6 +79,16 @@ def check(run):
                 run.gap_case("evaluate-cross-config", (c, R, s, Lm), lab)
                 if not helpers.bits_equal(np.asarray(a), np.asarray(b)):
                     run.violation("value-depends-on-calculator-size", "Wigner.evaluate[horner=True]", {**inp, "s": s, "ell_max_modes": Lm}, "bit-identical to exactly sized calculator", "differs")
+            if w.mp_max >= w.ell_max and Lm <= w.ell_max:
+                # rotation is served for every calculator ell_min (below it the Horner route is used)
+                modes = helpers.make_modes(rng, s, Lm)
+                for horner in (True, False):
+                    a = w.rotate(modes, Rq, horner=horner).ndarray
+                    b = spherical.Wigner(Lm).rotate(modes, Rq, horner=True).ndarray
+                    run.gap_case("rotate-cross-config", (c, R, s, Lm, horner), lab)
+                    if not (helpers.bits_equal(a, b) if (horner or w.ell_min > abs(s)) else np.allclose(a, b, rtol=1e-12, atol=1e-12)):
+                        run.violation("value-depends-on-calculator-size", f"Wigner.rotate[horner={horner}]", {**inp, "s": s, "ell_max_modes": Lm}, "same as exactly sized calculator", "differs")
+            if abs(s) <= w.mp_max and Lm <= w.ell_max and w.ell_min <= abs(s):
                 if w.mp_max >= w.ell_max:
                     a = w.rotate(modes, Rq, horner=True).ndarray
                     b = spherical.Wigner(Lm).rotate(modes, Rq, horner=True).ndarray
